@@ -7,7 +7,9 @@ import (
 	"math/rand"
 	"net"
 	"sync"
+	"syscall"
 	"time"
+	"unsafe"
 
 	"verifharness/lab"
 	"verifharness/sscodec"
@@ -34,26 +36,27 @@ func (c *countingReader) Read(b []byte) (int, error) {
 
 // relayCase is one authenticated TCP exchange.
 type relayCase struct {
-	ID        uint64  `json:"id"`
-	Key       KeySpec `json:"key"`
-	AddrType  int     `json:"addr_type"` // 1, 3, 4
-	DomainFam string  `json:"domain_family,omitempty"`
-	UpLen     int     `json:"up_len"`
-	DownLen   int     `json:"down_len"`
-	Chunks    []int   `json:"chunk_sizes"`
-	Coalesce  bool    `json:"address_coalesced_with_data"`
-	EmptyChk  bool    `json:"zero_length_chunks"`
-	FirstCut  int     `json:"first_write_bytes"` // first TCP write ends here (straddles the 50-byte prefix)
-	PauseMs   int     `json:"pause_ms"`
-	Mode      string  `json:"mode"` // client-fin-first, target-fin-first, concurrent
-	TgtFirst  bool    `json:"target_speaks_first"`
-	Raw       bool    `json:"raw_conn"`
-	V6Client  bool    `json:"client_over_ipv6"`
-	TailAfter int     `json:"bytes_after_peer_fin"`
-	ShortName string  `json:"short_host_name,omitempty"`
-	SlowRead  int     `json:"target_reads_late_ms"`      // the target starts reading this long after accepting
-	SlowMs    int     `json:"slow_ms"`                   // both sides pause this long mid-stream (longer than the handshake timeout)
-	CloseLn   bool    `json:"listener_closed_mid_relay"` // own listener, closed once the relay is established (what every reload does to the old listeners)
+	ID          uint64  `json:"id"`
+	Key         KeySpec `json:"key"`
+	AddrType    int     `json:"addr_type"` // 1, 3, 4
+	DomainFam   string  `json:"domain_family,omitempty"`
+	UpLen       int     `json:"up_len"`
+	DownLen     int     `json:"down_len"`
+	Chunks      []int   `json:"chunk_sizes"`
+	Coalesce    bool    `json:"address_coalesced_with_data"`
+	EmptyChk    bool    `json:"zero_length_chunks"`
+	FirstCut    int     `json:"first_write_bytes"` // first TCP write ends here (straddles the 50-byte prefix)
+	PauseMs     int     `json:"pause_ms"`
+	Mode        string  `json:"mode"` // client-fin-first, target-fin-first, concurrent
+	TgtFirst    bool    `json:"target_speaks_first"`
+	Raw         bool    `json:"raw_conn"`
+	V6Client    bool    `json:"client_over_ipv6"`
+	TailAfter   int     `json:"bytes_after_peer_fin"`
+	ShortName   string  `json:"short_host_name,omitempty"`
+	SlowRead    int     `json:"target_reads_late_ms"`      // the target starts reading this long after accepting
+	SlowMs      int     `json:"slow_ms"`                   // both sides pause this long mid-stream (longer than the handshake timeout)
+	TailDelayMs int     `json:"tail_delay_ms"`             // after the peer's FIN, the other direction pauses this long before it carries on
+	CloseLn     bool    `json:"listener_closed_mid_relay"` // own listener, closed once the relay is established (what every reload does to the old listeners)
 }
 
 func (rc relayCase) class() string {
@@ -354,11 +357,30 @@ func runRelayCase(e *relayEnv, r *rand.Rand, rc relayCase) *relayOutcome {
 			}
 			readAll() // until the client's FIN arrives
 			// the other direction keeps flowing after the client's half-close
+			if rc.TailDelayMs > 0 {
+				mid := head + (len(down)-head)/2
+				write(down[head:mid])
+				time.Sleep(time.Duration(rc.TailDelayMs) * time.Millisecond)
+				head = mid
+			}
 			write(down[head:])
 		case "target-fin-first":
 			write(down)
 			tc.CloseWrite()
 			readAll()
+		case "target-done-early":
+			// the target takes the request, answers with everything it has and is done with the
+			// connection: it closes once the whole answer has left its socket
+			req := make([]byte, min(len(up), 64))
+			tc.SetReadDeadline(time.Now().Add(relayB))
+			n, _ := io.ReadFull(tc, req)
+			tmu.Lock()
+			out.TargetGot = append(out.TargetGot, req[:n]...)
+			tmu.Unlock()
+			write(down)
+			for dl := time.Now().Add(relayB); unsentBytes(tc.TCPConn) > 0 && time.Now().Before(dl); {
+				time.Sleep(2 * time.Millisecond)
+			}
 		default:
 			var wg sync.WaitGroup
 			wg.Add(1)
@@ -404,6 +426,9 @@ func runRelayCase(e *relayEnv, r *rand.Rand, rc relayCase) *relayOutcome {
 	initial := len(up)
 	if rc.Mode == "target-fin-first" {
 		initial = len(up) - min(len(up), rc.TailAfter)
+	}
+	if rc.Mode == "target-done-early" {
+		initial = min(len(up), 64) // the request; the rest of the upload follows when the target is gone
 	}
 	var wire []byte
 	hdrLen := 0 // wire bytes up to and including the chunk that carries the address
@@ -502,6 +527,35 @@ func runRelayCase(e *relayEnv, r *rand.Rand, rc relayCase) *relayOutcome {
 		return cl.WriteRaw(wire[max(hdrLen, min(len(wire), 60)):])
 	}
 	switch rc.Mode {
+	case "target-done-early":
+		// the request, then - once the target is gone, and without having looked at the answer yet -
+		// more upload that nobody will see, a half-close, and only then the answer is read
+		reqLen := min(len(up), 64)
+		if err := cl.WriteRaw(wire); err != nil {
+			setErr("client write: " + err.Error())
+		}
+		if time.Since(cl.T0) > relayTimeout/2 {
+			emu.Lock()
+			out.ClientLate = true
+			emu.Unlock()
+		}
+		select {
+		case <-targetDone:
+		case <-time.After(relayB):
+		}
+		time.Sleep(100 * time.Millisecond)
+		for rest := up[reqLen:]; len(rest) > 0; {
+			n := min(len(rest), 1000)
+			if cl.WriteRaw(cl.Enc.Encode(rest[:n], nil)) != nil {
+				break // the client may or may not be told that its upload goes nowhere
+			}
+			rest = rest[n:]
+			time.Sleep(2 * time.Millisecond)
+		}
+		close(clientFin)
+		cl.Conn.CloseWrite()
+		time.Sleep(50 * time.Millisecond)
+		readDown()
 	case "client-fin-first":
 		if err := writeWire(); err != nil {
 			setErr("client write: " + err.Error())
@@ -518,6 +572,9 @@ func runRelayCase(e *relayEnv, r *rand.Rand, rc relayCase) *relayOutcome {
 			setErr("client write: " + err.Error())
 		}
 		wg.Wait() // the target's FIN has arrived (or the read failed)
+		if rc.TailDelayMs > 0 {
+			time.Sleep(time.Duration(rc.TailDelayMs) * time.Millisecond)
+		}
 		// the client keeps sending after the target's half-close
 		if rest := up[initial:]; len(rest) > 0 {
 			if err := cl.WriteRaw(cl.Enc.Encode(rest, rc.Chunks)); err != nil {
@@ -552,4 +609,17 @@ func runRelayCase(e *relayEnv, r *rand.Rand, rc relayCase) *relayOutcome {
 	out.Rec, out.HandlerDone = rec, done
 	_ = bytes.Equal
 	return out
+}
+
+// unsentBytes returns the number of bytes still in the socket's send queue (SIOCOUTQ).
+func unsentBytes(conn *net.TCPConn) int {
+	raw, err := conn.SyscallConn()
+	if err != nil {
+		return 0
+	}
+	var value int32
+	raw.Control(func(fd uintptr) {
+		syscall.Syscall(syscall.SYS_IOCTL, fd, 0x5411, uintptr(unsafe.Pointer(&value)))
+	})
+	return int(value)
 }
